@@ -181,6 +181,10 @@ func (s *Solver) solve(ob *Obligation) {
 	res := &SolveResult{Outputs: map[string]string{}, File: file}
 	ob.Result = res
 	total := 0.0
+	slowS := s.slowS
+	if ob.ShortLimit && slowS > 10 {
+		slowS = 10
+	}
 	if os.Getenv("FVC_FAST") != "" {
 		// development mode: one solver, short limit
 		st, out, secs := runSolver("z3-new", 2, file)
@@ -230,7 +234,7 @@ func (s *Solver) solve(ob *Obligation) {
 	rctx, rcancel := context.WithCancel(context.Background())
 	for _, n := range racers {
 		go func(n string) {
-			st, out, secs := runSolverCtx(rctx, n, s.slowS, file)
+			st, out, secs := runSolverCtx(rctx, n, slowS, file)
 			rc <- r{n, st, out, secs}
 		}(n)
 	}
@@ -260,7 +264,7 @@ func (s *Solver) solve(ob *Obligation) {
 		}
 	}
 	// last resort: z3-new with the long limit
-	st, out, secs = runSolver("z3-new", s.slowS, file)
+	st, out, secs = runSolver("z3-new", slowS, file)
 	res.Outputs["z3-new(long)"] = trimOut(out)
 	if st == "sat" || st == "unsat" {
 		res.Status, res.Backend, res.Seconds = st, "z3-new", total+secs
